@@ -74,6 +74,11 @@ pub struct TunnelCase {
     pub pause_every: u8,
     /// bytes the target sends on accept (towards the application) before echoing
     pub greeting: usize,
+    /// the application starts reading this many ms after it started writing and then reads in
+    /// small sips: with megabytes in flight every buffer between the target and the application
+    /// fills up (back-pressure through target -> server -> session -> client -> front-end)
+    #[serde(default)]
+    pub slow_reader_ms: u16,
 }
 
 pub struct TunnelFam;
@@ -85,9 +90,13 @@ impl Family for TunnelFam {
     }
     fn strategy(&self, _tier: Tier) -> BoxedStrategy<TunnelCase> {
         let chunk = weighted_sizes(vec![(3, 1..=100), (3, 101..=9000), (2, 8191..=8193), (2, 65534..=65537), (1, 70000..=70000), (1, 200_000..=200_000)]);
-        (any::<bool>(), proptest::collection::vec(chunk, 1..8), 0u8..4, prop_oneof![Just(0usize), Just(10), Just(100_000)])
-            .prop_map(|(via_http, chunks, pause_every, greeting)| TunnelCase { via_http, chunks, pause_every, greeting })
-            .boxed()
+        let plain = (any::<bool>(), proptest::collection::vec(chunk, 1..8), 0u8..4, prop_oneof![Just(0usize), Just(10), Just(100_000)])
+            .prop_map(|(via_http, chunks, pause_every, greeting)| TunnelCase { via_http, chunks, pause_every, greeting, slow_reader_ms: 0 });
+        // megabytes against a reader that starts late
+        let big = weighted_sizes(vec![(1, 65536..=65536), (2, 1_000_000..=1_000_000), (1, 2_500_000..=2_500_000)]);
+        let pressed = (any::<bool>(), proptest::collection::vec(big, 2..5), prop_oneof![Just(0usize), Just(3_000_000)], prop_oneof![Just(150u16), Just(600)])
+            .prop_map(|(via_http, chunks, greeting, slow_reader_ms)| TunnelCase { via_http, chunks, pause_every: 0, greeting, slow_reader_ms });
+        prop_oneof![7 => plain, 1 => pressed].boxed()
     }
     fn case_budget_s(&self) -> u64 {
         120
@@ -124,13 +133,24 @@ impl Family for TunnelFam {
                     }
                     true
                 };
+                let slow = case.slow_reader_ms;
                 let reader = async {
                     let want_total = greet.len() + total;
                     let mut got = Vec::with_capacity(want_total);
                     let mut b = vec![0u8; 65536];
-                    let deadline = tokio::time::Instant::now() + Duration::from_secs(60);
+                    if slow > 0 {
+                        tokio::time::sleep(Duration::from_millis(slow as u64)).await;
+                    }
+                    let deadline = tokio::time::Instant::now() + Duration::from_secs(90);
+                    let mut sips = 0usize;
                     while got.len() < want_total {
-                        match tokio::time::timeout_at(deadline, rd.read(&mut b)).await {
+                        if slow > 0 && sips < 40 {
+                            // the first reads are small and spaced out
+                            sips += 1;
+                            tokio::time::sleep(Duration::from_millis(5)).await;
+                        }
+                        let room = if slow > 0 && sips < 40 { 4096 } else { b.len() };
+                        match tokio::time::timeout_at(deadline, rd.read(&mut b[..room])).await {
                             Ok(Ok(0)) => return (got, Some("end-of-stream".to_string())),
                             Ok(Ok(n)) => got.extend_from_slice(&b[..n]),
                             Ok(Err(e)) => return (got, Some(e.to_string())),
@@ -170,6 +190,7 @@ impl Family for TunnelFam {
         out.class_if(case.via_http, "http-connect");
         out.class_if(!case.via_http, "socks5");
         out.class_if(case.greeting > 65535, "target-sends-first>64KiB");
+        out.class_if(case.slow_reader_ms > 0 && total >= 2_000_000, "late-reader>=2MB-in-flight");
         Ok(out)
     }
 }
@@ -357,6 +378,170 @@ impl Family for EofFam {
             Closer::AppClose => "app-close",
             Closer::TargetHalfClose => "target-half-close",
             Closer::TargetClose => "target-close",
+        });
+        Ok(out)
+    }
+}
+
+// ------------------------------------------------------------------------------------------
+// family `srv_fin` (C08, server side end to end): a reference client that does send FIN
+
+#[derive(Clone, Debug, Serialize, Deserialize, PartialEq)]
+pub enum SrvOrder {
+    /// the target sends `down`, half-closes and keeps reading; then the client sends `up` and finishes
+    TargetHalfCloseThenClient,
+    /// the client sends `up` and finishes while the target is still open (it only reads)
+    ClientFirst,
+    /// the target sends `down` and closes; the client only reads
+    TargetCloses,
+}
+
+#[derive(Clone, Debug, Serialize, Deserialize)]
+pub struct SrvFinCase {
+    pub order: SrvOrder,
+    pub up: usize,
+    pub down: usize,
+    /// the client finishes by closing its whole session (TLS connection) instead of a FIN frame
+    pub by_session_close: bool,
+    /// size of the client's data frames
+    pub frame: usize,
+}
+
+pub struct SrvFinFam;
+
+impl Family for SrvFinFam {
+    type Case = SrvFinCase;
+    fn name(&self) -> &'static str {
+        "srv_fin"
+    }
+    fn strategy(&self, _tier: Tier) -> BoxedStrategy<SrvFinCase> {
+        let amount = weighted_sizes(vec![(2, 0..=0), (3, 1..=100), (2, 8191..=8193), (2, 65534..=65537), (1, 300_000..=300_000), (1, 3_000_000..=3_000_000)]);
+        (
+            prop_oneof![3 => Just(SrvOrder::TargetHalfCloseThenClient), 2 => Just(SrvOrder::ClientFirst), 2 => Just(SrvOrder::TargetCloses)],
+            amount.clone(),
+            amount,
+            proptest::bool::weighted(0.3),
+            prop_oneof![Just(1usize), Just(1000), Just(16384), Just(65535)],
+        )
+            .prop_map(|(order, up, down, by_session_close, frame)| SrvFinCase { order, up, down, by_session_close, frame })
+            .boxed()
+    }
+    fn case_budget_s(&self) -> u64 {
+        120
+    }
+    fn run(&self, case: &SrvFinCase, cx: &CaseCtx) -> CaseResult {
+        let mut out = Outcome::new();
+        let c = case.clone();
+        let r = with_world(|w| {
+            w.rt.block_on(async {
+                let case = c;
+                let down = keyed(4, 1, 0, case.down);
+                let up = keyed(4, 0, 0, case.up);
+                let mode = match case.order {
+                    SrvOrder::TargetHalfCloseThenClient => TargetMode::SendThenShutdown(down.clone()),
+                    SrvOrder::ClientFirst => TargetMode::Sink,
+                    SrvOrder::TargetCloses => TargetMode::SendThenClose(down.clone()),
+                };
+                let target = TcpTarget::start(IpAddr::V4(worker_ip_n(33)), mode).await?;
+                let mut cl = RefClient::connect(w.server).await?;
+                let md5 = format!("{:x}", md5::compute(anytls_rs::padding::DEFAULT_PADDING_SCHEME.as_bytes()));
+                const SID: u32 = 1;
+                let mut hello = ref_preamble(PASSWORD, 3);
+                hello.extend(rc::encode_all(&[
+                    RFrame::new(rc::SETTINGS, 0, format!("v=2\nclient=ref\npadding-md5={md5}").into_bytes()),
+                    RFrame::ctl(rc::SYN, SID),
+                    RFrame::new(rc::PSH, SID, Dest::of(target.addr).encode()),
+                ]));
+                cl.send_raw(&hello).await.map_err(|e| infra(format!("reference client write: {e}")))?;
+                let ack = cl.wait_for(10_000, |f| f.cmd == rc::SYNACK && f.sid == SID).await;
+                if ack.is_none() || ack.is_some_and(|f| !f.data.is_empty()) {
+                    return Err(infra("the server did not accept the stream to a listening target"));
+                }
+                let data_seen = |cl: &RefClient| -> Vec<u8> { cl.seen.iter().filter(|f| f.cmd == rc::PSH && f.sid == SID).flat_map(|f| f.data.iter().copied()).collect() };
+                let expect_down = case.order != SrvOrder::ClientFirst;
+                if expect_down {
+                    // P2 towards the client: every byte the target sent before it (half-)closed arrives
+                    let deadline = tokio::time::Instant::now() + Duration::from_secs(30);
+                    while data_seen(&cl).len() < down.len() && tokio::time::Instant::now() < deadline && !cl.eof {
+                        cl.drain(200).await;
+                    }
+                    let got = data_seen(&cl);
+                    ensure!(got == down, "C08.P2", "the target sent {} bytes and then {:?}; the client received {} of them{}", down.len(), case.order, got.len(), if got.len() == down.len() { " (altered)" } else { "" });
+                }
+                match case.order {
+                    SrvOrder::TargetCloses => {
+                        // P1 towards the client: a FIN for the stream follows the data
+                        cl.drain(1200).await;
+                        let fin = cl.seen.iter().any(|f| f.cmd == rc::FIN && f.sid == SID);
+                        if !fin && !cx.tolerate("C08.P1:e2e:eof-not-propagated") {
+                            return Err(Fail::new("C08.P1", "C08.P1:e2e:eof-not-propagated", format!("the target sent {} bytes and closed; the client received all bytes but no FIN for the stream", down.len())));
+                        }
+                        if fin {
+                            // only after the data
+                            let pos_fin = cl.seen.iter().position(|f| f.cmd == rc::FIN && f.sid == SID).unwrap();
+                            let last_psh = cl.seen.iter().rposition(|f| f.cmd == rc::PSH && f.sid == SID);
+                            ensure!(last_psh.is_none_or(|p| p < pos_fin), "C08.P2", "data of the stream arrived after its FIN");
+                        }
+                    }
+                    _ => {
+                        // the client sends `up` and finishes
+                        let mut frames: Vec<RFrame> = up.chunks(case.frame.max(1)).map(|c| RFrame::new(rc::PSH, SID, c.to_vec())).collect();
+                        if !case.by_session_close {
+                            frames.push(RFrame::ctl(rc::FIN, SID));
+                        }
+                        cl.send(&frames).await.map_err(|e| Fail::plain("C08.P3", format!("the server stopped reading from the client ({e}) although only the target had finished")))?;
+                        if case.by_session_close {
+                            use tokio::io::AsyncWriteExt;
+                            let _ = cl.tls.shutdown().await;
+                            drop(cl);
+                        }
+                        // P2/P3 towards the target: every byte sent before the end arrives
+                        let ok = wait_until(30_000, || target.total_received() >= up.len() || target.conn(0).is_some_and(|c| { let g = c.lock().unwrap(); g.error.is_some() || g.eof })).await;
+                        let conn = target.conn(0);
+                        tokio::time::sleep(Duration::from_millis(50)).await;
+                        let (got, err) = conn.as_ref().map(|c| { let g = c.lock().unwrap(); (g.received.clone(), g.error.clone()) }).unwrap_or_default();
+                        let how = if case.by_session_close { "closed its session" } else { "sent FIN" };
+                        ensure!(
+                            ok && got == up,
+                            "C08.P2",
+                            "the client sent {} bytes and {how} ({:?}); the target received {} of them{}",
+                            up.len(),
+                            case.order,
+                            got.len(),
+                            err.as_ref().map(|e| format!(", then its read failed: {e}")).unwrap_or_default()
+                        );
+                        // P1 towards the target: it observes end-of-stream (not a reset) after the data
+                        let ended = wait_until(1500, || conn.as_ref().is_some_and(|c| { let g = c.lock().unwrap(); g.eof || g.error.is_some() })).await;
+                        let err = conn.as_ref().and_then(|c| c.lock().unwrap().error.clone());
+                        ensure!(err.is_none(), "C08.P1", "the client sent {} bytes and {how} ({:?}); the target received them but then its connection failed instead of ending: {}", up.len(), case.order, err.unwrap_or_default());
+                        if !ended {
+                            // the server forwards a client FIN only by dropping the socket once the target has
+                            // closed too: with the target still open this is the listed finding
+                            let known = case.order == SrvOrder::ClientFirst;
+                            if !(known && cx.tolerate("C08.P1:e2e:eof-not-propagated")) {
+                                return Err(Fail::new(
+                                    "C08.P1",
+                                    if known { "C08.P1:e2e:eof-not-propagated" } else { "C08.P1:srv:no-eof-after-both-ended" },
+                                    format!("the client sent {} bytes and {how} ({:?}); the target received all bytes but never observed end-of-stream", up.len(), case.order),
+                                ));
+                            }
+                        }
+                    }
+                }
+                Ok(())
+            })
+        });
+        if let Err(f) = r {
+            reset_world();
+            return Err(f);
+        }
+        out.nt(case.up + case.down > 0);
+        out.class_if(case.up >= 70_000 || case.down >= 70_000, "data-in-flight>64KiB");
+        out.class_if(case.by_session_close, "client-ends-by-session-close");
+        out.class(match case.order {
+            SrvOrder::TargetHalfCloseThenClient => "target-half-close-then-client-fin",
+            SrvOrder::ClientFirst => "client-fin-first",
+            SrvOrder::TargetCloses => "target-closes",
         });
         Ok(out)
     }
